@@ -43,8 +43,8 @@ vars == <<seq, gclass>>
 (* the alphabet                                                            *)
 TokSeq == << "a", "lt", "empty-sequence", "if", "text", "count", "child", "self",
              "map", "array", "function", "for", "in", "return", "let", "instance of",
-             "div", "and", "to", "eq", "is",
-             "1", "1.5", "1e0", "'s'",
+             "div", "mod", "idiv", "and", "to", "eq", "is",
+             "0", "1", "1.5", "1e0", "'s'",
              "+", "-", "*", "=", "|", ",", "/", "//", "!", "||", "=>", "<<", ":=",
              "(", ")", "[", "]", "{", "}",
              "::", "$", "#", "?", "Q{u}", "(:", ":)", "@", ".", "..", ":" >>
@@ -53,7 +53,7 @@ AllTokens == {TokSeq[i] : i \in 1..Len(TokSeq)}
 Idx(t) == CHOOSE i \in 1..Len(TokSeq) : TokSeq[i] = t
 
 (* the reduced alphabet used where the full one is too large (length-4 sequences) *)
-Core == {"a", "lt", "empty-sequence", "if", "text", "1", "'s'", "+", "-", "*", "=", ",", "/", "//",
+Core == {"a", "lt", "empty-sequence", "if", "text", "0", "1", "'s'", "+", "-", "*", "=", ",", "/", "//",
          "(", ")", "[", "]", "{", "}", "::", "$", "#", "?", "Q{u}", "(:", ":)", "@", ".", "and"}
 
 ASSUME CoreOK == Core \subseteq AllTokens
@@ -64,9 +64,9 @@ ASSUME OutcomeLawsHold == O!OutcomeLaws
 (* token classes *)
 Names     == {"a"}
 Keywords  == {"lt", "empty-sequence", "if", "text", "count", "child", "self", "map", "array",
-              "function", "for", "in", "return", "let", "instance of", "div", "and", "to",
-              "eq", "is"}                       \* all of them are NCNames too (no reserved words)
-Literals  == {"1", "1.5", "1e0", "'s'"}
+              "function", "for", "in", "return", "let", "instance of", "div", "mod", "idiv", "and",
+              "to", "eq", "is"}                       \* all of them are NCNames too (no reserved words)
+Literals  == {"0", "1", "1.5", "1e0", "'s'"}
 Dots      == {".", ".."}
 PureInfix == {"=", "|", ",", "!", "||", "=>", "<<", ":="}   \* never start or end an expression
 Signs     == {"+", "-"}                         \* infix or prefix
@@ -83,7 +83,7 @@ Class(t) == CASE t \in Names -> "name"  [] t \in Keywords -> "keyword" [] t \in 
               [] OTHER -> "punct"
 
 (* first XPath version (10, 20, 30, 31) in which the token is a token of the language *)
-Since(t) == CASE t \in {"lt", "eq", "is", "to", "if", "for", "in", "return", "instance of", "empty-sequence",
+Since(t) == CASE t \in {"lt", "eq", "is", "to", "idiv", "if", "for", "in", "return", "instance of", "empty-sequence",
                         "<<", ",", "(:", ":)", "1e0", "?"} -> 20
               [] t \in {"!", "||", "Q{u}", "#", "{", "}", "let", ":=", "function"} -> 30
               [] t \in {"=>", "map", "array"} -> 31
@@ -93,8 +93,8 @@ Since(t) == CASE t \in {"lt", "eq", "is", "to", "if", "for", "in", "return", "in
 (* conservative grammar recogniser (spaced layout, XPath >= ver)           *)
 Operand(t) == t \in Names \cup Literals \cup Dots
 NameLike(t) == t \in Names \cup {"*"}
-BinOps == {"+", "-", "*", "div", "and", "=", "|", "/", "//"}          \* 1.0 binary operators
-BinOps20 == BinOps \cup {"eq", "lt", "is", "to", ",", "<<"}
+BinOps == {"+", "-", "*", "div", "mod", "and", "=", "|", "/", "//"}          \* 1.0 binary operators
+BinOps20 == BinOps \cup {"eq", "lt", "is", "to", ",", "<<", "idiv"}
 BinOps30 == BinOps20 \cup {"||", "!"}
 BinOpsOf(ver) == IF ver = 10 THEN BinOps ELSE IF ver = 20 THEN BinOps20 ELSE BinOps30
 
